@@ -1,5 +1,4 @@
 // ================= U10 prelude =================
-#[derive(Clone, Copy, PartialEq, Eq, Structural)] pub struct DeferredBeneficiaryReward(pub U256);
 // TRUSTED: parking_lot::RwLock. Writers: lock-scoped (the view at acquisition is arbitrary).
 // Readers: one fixed abstract value `cur()` per call (DESIGN §3.1).
 #[verifier::external_body] #[verifier::reject_recursive_types(T)] pub struct RwLock<T> { x: core::marker::PhantomData<T> }
@@ -85,4 +84,9 @@ impl BeneficiaryHistory {
             }
         }
     }
+}
+
+/// rewards applied oldest first to `base`; `s` is ordered newest first (the order scan_before collects them in)
+spec fn fold_oldest_first(base: Option<AccountInfo>, s: Seq<DeferredBeneficiaryReward>) -> Option<AccountInfo> decreases s.len() {
+    if s.len() == 0 { base } else { fold_oldest_first(Some(spec_apply_reward(s.last().0, base)), s.drop_last()) }
 }
